@@ -211,3 +211,57 @@ def alternatives(pattern):
             lang = None
         out.append((lang, always, allg))
     return out
+
+
+def search_language(pattern, notes=None):
+    """the set of SUBJECT strings in which pattern.search() finds a match, for patterns of the shape
+       [ \\A | (alt | alt | \\A ...) ] body [ $ | \\Z ]
+    (anchors only at the two ends, the start anchor possibly as one alternative of a leading group) — or None"""
+    items = list(parse(pattern))
+    flags = pattern.flags
+    ANY = z3.Star(z3.AllChar(z3.ReSort(z3.StringSort())))
+    tail = ANY
+    if items and str(items[-1][0]) == 'AT':
+        a = str(items[-1][1])
+        if a == 'AT_END_STRING':
+            tail = None
+        elif a == 'AT_END' and not (flags & re.MULTILINE):
+            tail = z3.Option(z3.Re('\n'))
+        else:
+            return None
+        items = items[:-1]
+    heads = None        # list of (anchored at the start?, language of this alternative of the first item)
+    if items:
+        op, av = items[0]
+        name = str(op)
+        first = None
+        if name == 'AT' and str(av) in ('AT_BEGINNING', 'AT_BEGINNING_STRING') and not (flags & re.MULTILINE):
+            heads, items = [(True, z3.Re(''))], items[1:]
+        else:
+            if name == 'SUBPATTERN' and len(list(av[3])) == 1 and str(list(av[3])[0][0]) == 'BRANCH':
+                first = list(av[3])[0][1][1]
+            elif name == 'BRANCH':
+                first = av[1]
+            if first is not None:
+                heads = []
+                for alt in first:
+                    al = list(alt)
+                    if len(al) == 1 and str(al[0][0]) == 'AT' and str(al[0][1]) in ('AT_BEGINNING', 'AT_BEGINNING_STRING') and not (flags & re.MULTILINE):
+                        heads.append((True, z3.Re('')))
+                    else:
+                        try:
+                            heads.append((False, to_re(alt, flags, notes)))
+                        except Untranslatable:
+                            return None
+                items = items[1:]
+    try:
+        body = to_re(items, flags, notes) if items else z3.Re('')
+    except Untranslatable:
+        return None
+    if heads is None:
+        heads = [(False, z3.Re(''))]
+    langs = []
+    for anchored, h in heads:
+        parts = ([] if anchored else [ANY]) + [h, body] + ([tail] if tail is not None else [])
+        langs.append(z3.Concat(*parts))
+    return langs[0] if len(langs) == 1 else z3.Union(*langs)
